@@ -30,6 +30,7 @@ def gen_cases(tier, seed):
     cases = [{'kind': rng.choice(['list', 'dict', 'namespace', 'value', 'box', 'managed', 'concurrent']), 'ops': rng.choice([60, 150, 300]),
               'agents': rng.choice([1, 2]), 'seed': rng.randrange(1 << 30)} for _ in range(n)]
     cases += [{'kind': 'init-managed', 'ops': 0, 'agents': 1 + i, 'seed': i} for i in range(2)]
+    cases += [{'kind': 'two-managers', 'ops': 0, 'agents': 1, 'seed': i} for i in range(2 if tier == 'quick' else 12)]
     cases += [{'kind': 'one-typeid-two-classes', 'first': f, 'ops': 0, 'agents': 1, 'seed': i} for i, f in enumerate(['counter', 'stack'])]
     # proxy lifetimes interleaved with calls (always present)
     cases += [{'kind': 'lifetimes', 'ops': rng.choice([150, 300]), 'agents': 1 + i % 2, 'seed': rng.randrange(1 << 30)} for i in range(4 if tier == 'quick' else 60)]
@@ -361,6 +362,62 @@ def run_case(case):
                     got = call(0, 'h', 'own_snapshot', [])
                     if got != ('val', local) or call(0, 'h', 'own_len', []) != ('val', len(local)):
                         viol.append({'mech': 'proxy/managed-value-is-a-copy', 'msg': f'managed value created in a constructor: server has {str(got)[:200]}, expected {local}'})
+                elif kind == 'two-managers':
+                    # a second manager lives at the same time; proxies of ITS objects travel into and out of the first manager's process
+                    # (stored in hosted containers, passed as method arguments): every call must reach the object in the server that hosts it
+                    with ServerProcess() as other:
+                        n0 = rng.randrange(1, 4)
+                        loc_inner = list(range(n0))
+                        reg['inner'] = other.list(list(loc_inner))
+                        reg['mine'] = manager.list(['x'])
+                        reg['holder'] = manager.dict()
+                        reg['hl'] = manager.list()
+                        steps = [(0, 'holder', '__setitem__', ['k', ('@H', 'inner')], None), (0, 'hl', 'append', [('@H', 'inner')], None),
+                                 (0, 'holder', '__getitem__', ['k'], 'back1'), (0, 'hl', '__getitem__', [0], 'back2')]
+                        agent(1, ('load', 'holder', pickle.dumps(reg['holder'])))
+                        pickle.loads(pickle.dumps(reg['holder']))
+                        steps += [(1, 'holder', '__getitem__', ['k'], 'back3')]
+                        for actor, h, method, args, store in steps:
+                            got = call(actor, h, method, args, None, store)
+                            obs['operations'] += 1
+                            if got[0] == 'exc':
+                                viol.append({'mech': 'proxy/object-of-another-manager-not-reached', 'msg': f'two managers alive; proxy of a list hosted by the second one sent into / fetched from the first: '
+                                             f'{h}.{method} via actor {actor} gave {str(got)[:300]}'})
+                                return
+                        script = [(0, 'back1'), (1, 'back3'), (0, 'inner'), (0, 'back2'), (1, 'back3'), (0, 'back1')]
+                        rng.shuffle(script)
+                        for j, (actor, h) in enumerate(script):
+                            v = ('t', j)
+                            loc_inner.append(v)
+                            got = call(actor, h, 'append', [v])
+                            obs['operations'] += 1
+                            if got != ('val', None):
+                                viol.append({'mech': 'proxy/object-of-another-manager-not-reached', 'msg': f'append through travelled proxy {h} via actor {actor} gave {str(got)[:300]}'})
+                                return
+                        for actor, h in ((0, 'inner'), (0, 'back1'), (0, 'back2'), (1, 'back3')):
+                            got = call(actor, h, '__getitem__', [slice(None)])
+                            obs['operations'] += 1
+                            if not same(got, ('val', list(loc_inner)), '__getitem__'):
+                                viol.append({'mech': 'proxy/state-not-visible-through-every-proxy/two-managers', 'msg': f'list hosted by the second manager read through {h} via actor {actor}: {str(got)[:200]} vs {loc_inner}'})
+                                return
+                        got = call(0, 'mine', '__getitem__', [slice(None)])
+                        if not same(got, ('val', ['x']), '__getitem__'):
+                            viol.append({'mech': 'proxy/object-of-another-manager-not-reached', 'msg': f'an unrelated list of the first manager changed: {got}'})
+                            return
+                        # a failing call through the travelled proxy: same exception as a direct call, connection usable afterwards
+                        exp = apply_local(list(loc_inner), 'index', ['absent'], None)
+                        got = call(0, 'back1', 'index', ['absent'])
+                        obs['operations'] += 1
+                        obs['raising_operations'] += 1
+                        if not same(got, exp, 'index'):
+                            viol.append({'mech': 'proxy/object-of-another-manager-not-reached', 'msg': f'back1.index("absent") gave {str(got)[:250]}, direct call gives {str(exp)[:150]}'})
+                            return
+                        obs['two_manager_sequences'] = obs.get('two_manager_sequences', 0) + 1
+                        for h in ('back1', 'back2', 'inner'):
+                            reg.pop(h, None)
+                        agent(1, ('drop', 'back3'))
+                        call(0, 'holder', 'clear', [])
+                        call(0, 'hl', 'clear', [])
                 elif kind == 'one-typeid-two-classes':
                     # a typeid registered with a factory: two hosted objects of different classes (different methods) behind the same typeid,
                     # met by the harness process in one order and by the agent in the other
@@ -523,7 +580,7 @@ def run_case(case):
     except watch.Inconclusive as e:
         return {'violations': viol, 'obs': obs, 'inconclusive': str(e), 'exit_after': True}
     nontrivial = obs['raising_operations'] > 0 and obs['ops_via_agents'] > 0
-    return {'violations': viol[:3], 'obs': obs, 'nontrivial': nontrivial or kind in ('managed', 'concurrent', 'lifetimes', 'one-typeid-two-classes', 'init-managed'), 'sig': hash((kind, case['seed'])) & 0xFFFFFFFFFFFF, 'exit_after': True,
+    return {'violations': viol[:3], 'obs': obs, 'nontrivial': nontrivial or kind in ('managed', 'concurrent', 'lifetimes', 'one-typeid-two-classes', 'init-managed', 'two-managers'), 'sig': hash((kind, case['seed'])) & 0xFFFFFFFFFFFF, 'exit_after': True,
             'sample': {'kind': kind, 'agents': case['agents'], 'operations': obs['operations'], 'raising': obs['raising_operations'], 'via_agents': obs['ops_via_agents'],
                        'managed_mutations': obs['managed_mutations'], 'concurrent_ops': obs['concurrent_ops']}}
 
